@@ -103,6 +103,73 @@ CLAIMS = {
         "technique": "Lean 4 proof (integer bin arithmetic) + exact per-mode correspondence",
         "design_ref": "DESIGN.md §5 C17",
     },
+    "C03": {
+        "text": "Lean theorems: cutoff arithmetic for every N (2/3 rule: 3K<N; 1/2 rule: 4K<N; the binary64 evaluation of the "
+                "cutoff used by the code never exceeds the rational one and is what the model is driven with); circular "
+                "convolution theorem and its alias-free form for band-limited fields (quadratic and cubic); ifft(mask*u_hat) is "
+                "the band truncation; for the 1-D one-channel model terms (conservative / non-conservative convection, gradient "
+                "norm with zero-mode fix, quadratic and cubic polynomial, Cahn-Hilliard) the output on every retained mode is the "
+                "linear (alias-free) convolution form of the documented operator on the truncated state, and 0 on every dropped "
+                "mode; zero outside the band for all terms in every dimension; regenerated cross product = documented formula. "
+                "Not proved in Lean: the per-term statement for D=2,3 / multi-channel / vorticity / rotational / Gray-Scott (tied by "
+                "correspondence to the model and by the 4x-oversampled oracle). Correspondence: masks exactly for a contiguous N "
+                "range (all residues mod 12), every nonlinear-function class vs the model, D=1..3.",
+        "technique": "Lean 4 proof (DFT convolution/aliasing theory on the model pipeline) + model/implementation correspondence",
+        "design_ref": "DESIGN.md §5 C03",
+    },
+    "C05": {
+        "text": "Lean theorems (general D): derivative symbol (i s k_d)^m and exactness on plane waves for any order; Laplace "
+                "symbols of every even order and gradient-inner-product symbols of every odd order in closed form; Poisson order 2 "
+                "and 4 per mode: zero mean mode, operator*solution = -rhs on every other stored mode, the guard fires only at the "
+                "mean mode; transform round trip for all D, N. Correspondence: build_laplace_operator, derivative (orders 1..6, "
+                "C>=1), Poisson (orders 2, 4) vs the model on arbitrary states. Oracle: analytic derivatives of Nyquist-free "
+                "trigonometric polynomials, Poisson residual.",
+        "technique": "Lean 4 proof (symbol algebra per mode) + model/implementation correspondence",
+        "design_ref": "DESIGN.md §5 C05",
+    },
+    "C12": {
+        "text": "Lean theorems: ForcedStepper (regenerated) = inner(u + dt f), zero forcing = unforced; on the forced mode every "
+                "ETDRK order updates a -> e^z a + dt phi1(z) f and from rest a_n = f (e^{n z}-1)/sigma for every n, dt (laminar "
+                "solution); steady amplitude is a fixed point; the injected coefficients of the 2-D vorticity and 3-D velocity "
+                "model terms are exactly -m(2pi/L)gamma*scaling at (0,m) and -/+ i*gamma*scaling at (0,+-m,0) = coefficients of "
+                "gamma sin (Proofs/LerayAlgebra *_injection_documented). Correspondence: injected spectra, rest-start rollouts "
+                "for L in {2pi,1,5}, ForcedStepper over several base steppers. Oracle: laminar closed form of the documented "
+                "forcing. (The repaired forcing defects are listed in known_findings.json as fixed.)",
+        "technique": "Lean 4 proof (recurrence/closed form + per-mode injection) + model/implementation correspondence",
+        "design_ref": "DESIGN.md §5 C12",
+    },
+    "C15": {
+        "text": "Lean theorems: the block copy of map_between_resolutions preserves wavenumbers on every leading axis for all "
+                "parity combinations (N_old, N_new >= 2, incl. +-1), copies exactly the band -m/2 <= k <= (m-1)/2 with "
+                "m=min(N_old,N_new) and the first m/2+1 last-axis entries; same resolution is the identity; the transform pair "
+                "reproduces every real state on its grid (all D, N). Exactness of up/down-sampling on band-limited states and mean "
+                "preservation are NOT proved in Lean (checked by correspondence of the whole routine with the model and by the "
+                "oracle on Nyquist-free trigonometric polynomials). Correspondence: exact index maps for all (N_old, N_new) in "
+                "range x D, map_between_resolutions and FourierInterpolator numerically.",
+        "technique": "Lean 4 proof (slice/index arithmetic) + exact index-map correspondence + numerical correspondence",
+        "design_ref": "DESIGN.md §5 C15",
+    },
+    "C16": {
+        "text": "Lean theorems over R about the metrics model: the value is the documented quadrature, scales with L as "
+                "(a^D)^q, Parseval (Fourier aggregate with 1/reconstruction-scaling weights = spatial aggregate for p=2, all D, "
+                "N), channel additivity, band additivity over adjacent bands and the full band, zero iff identical / positive "
+                "otherwise, symmetry, homogeneity of degree p*q, scale-freeness and symmetry of the normalized / symmetric "
+                "combinations, correlation in [-1,1] and +-1 for proportional fields. Correspondence: every exported metric "
+                "function (spatial, Fourier with bands and derivatives, correlation) vs the model. Oracle: the same laws "
+                "measured on the implementation, resolution independence, Sobolev = value + gradient term.",
+        "technique": "Lean 4 proof (real analysis of the quadratures + DFT Parseval) + model/implementation correspondence",
+        "design_ref": "DESIGN.md §5 C16",
+    },
+    "C18": {
+        "text": "Lean theorems over R about the deterministic post-processing (random draws are inputs): zero mean, unit std "
+                "(with zero mean), unit max, clamping into [lo,hi] with both limits reached, scale factor, size preservation; "
+                "truncated Fourier series: requested offset in the mean mode and zero outside the cutoff; invalid option "
+                "combinations. jax.random, shapes of the drawn arrays and the function-form/sampled-form agreement are not "
+                "modelled (oracle on the implementation). Correspondence: normalize_ic, ClampingICGenerator, "
+                "RandomTruncatedFourierSeries (draws replicated) vs the model. (Repaired defects: see known_findings.json.)",
+        "technique": "Lean 4 proof (normalisation algebra) + model/implementation correspondence; PRNG external",
+        "design_ref": "DESIGN.md §5 C18",
+    },
 }
 
 PENDING_REASON = "check not built yet in this session (model and theorems planned in DESIGN.md §5); not claimed until its check exists"
